@@ -46,7 +46,8 @@ type hist struct {
 	nodes       []*hx.Node
 	rng         *rand.Rand
 	cfg         simcfg
-	relagVictim *hx.Node // C06 -relag: the validator that lags from the start
+	relagVictim *hx.Node     // C06 -relag: the validator that lags from the start
+	stubborn    map[int]bool // removed validators that keep gossiping
 	// statistics
 	laggingDecisions int
 	framesChecked    int             // C04 frameOracle: frames examined
@@ -208,7 +209,18 @@ func (h *hist) membership(a *hx.Node) {
 	}
 	// a node whose own removal is effective and processed stops gossiping (it would suspend itself)
 	if h.leaving[a.Self] && a.Core.RemovedRound() > 0 && a.Hg.LastConsensusRound != nil && *a.Hg.LastConsensusRound >= a.Core.RemovedRound() {
-		if !a.Silent {
+		// ... unless it is stubborn: one removed validator in two ignores its eviction and keeps creating and gossiping
+		// events (validly signed, no equivocation); the others insert them, but they must never be witnesses again
+		if h.stubborn == nil {
+			h.stubborn = map[int]bool{}
+		}
+		if _, decided := h.stubborn[a.Self]; !decided {
+			h.stubborn[a.Self] = h.rng.Intn(2) == 0
+			if h.stubborn[a.Self] {
+				h.actions["node-left-but-keeps-gossiping"]++
+			}
+		}
+		if !a.Silent && !h.stubborn[a.Self] {
 			a.Silent = true
 			h.actions["node-left"]++
 		}
